@@ -71,10 +71,13 @@ M = [
      "error mode deletes the colliders before raising"),
     ("m11h", "C11", IT, "        if self._entries[0][0] < self.minTimestamp:\n            self.minTimestamp = self._entries[0][0]\n", "",
      "IntervalTier.insertEntry does not lower minTimestamp"),
-    ("m11i", "C11", PT, "            self.deleteEntry(self.entries[i])\n            self._entries.append(newPoint)",
-     "            self._entries.append(newPoint)", "point replace keeps the old point"),
-    ("m11j", "C11", PT, "            if point.time == newPoint.time:", "            if abs(point.time - newPoint.time) < 0.2:",
+    ("m11i", "C11", PT, "            for matchEntry in matchList:\n                self.deleteEntry(matchEntry)\n            self._entries.append(newPoint)",
+     "            self._entries.append(newPoint)", "point replace keeps the old point(s)"),
+    ("m11j", "C11", PT, "if point.time == newPoint.time]", "if abs(point.time - newPoint.time) < 0.2]",
      "points within 0.2 collide"),
+    ("m11l", "C11", PT, "        matchList = [point for point in self.entries if point.time == newPoint.time]",
+     "        matchList = [point for point in self.entries if point.time == newPoint.time][:1]",
+     "revert of fix: only the first of several same-time points collides"),
     ("m11k", "C11", IT, "                max([tmpInterval.end for tmpInterval in matchList]),",
      "                matchList[-1].end,", "merge takes the end of the last-starting interval"),
     # ------------------------------------------------------------------ C12
